@@ -21,7 +21,9 @@ ASSUMPTIONS = [
     'on-edge shortcut) are recorded as known findings; the former length hypothesis (finding C05:ray-too-short) is discharged for the live code '
     '(fix 6f318c4) and kept on record for the code before the fix (C05_pinned_* about Model/PinnedLoop.v)',
 ]
-THEOREMS = ['C05_open_loop_is_error', 'C05_off_plane_is_outside', 'C05_polygon_is_outer_and_not_hole', 'C05_test_point_counts_crossings', 'C05_intersection_solve_exact', 'C05_crossing_is_geometric', 'C05_long_segment_is_ray', 'C05_ray_long_enough', 'C05_test_point_counts_ray_crossings', 'C05_plane_coordinates', 'C05_ray_parity_is_fan_parity', 'C05_ray_parity_direction_independent', 'C05_test_point_fan_parity_partial', 'C05_test_point_is_winding_parity_partial', 'C05_test_point_is_membership_partial', 'C05_answer_independent_of_ray_partial', 'C05_pinned_test_point_counts_crossings', 'C05_pinned_test_point_is_winding_parity_if_long_enough', 'C05_pinned_length_hypothesis_fails', 'C05_pinned_ray_too_short_refuted', 'C05_on_edge_tolerance_refuted', 'C05_on_edge_parameter_refuted', 'C05_vertex_grazing_refuted']
+THEOREMS = ['C05_open_loop_is_error', 'C05_off_plane_is_outside', 'C05_polygon_is_outer_and_not_hole', 'C05_test_point_counts_crossings', 'C05_intersection_solve_exact', 'C05_crossing_is_geometric', 'C05_long_segment_is_ray', 'C05_ray_long_enough', 'C05_test_point_counts_ray_crossings', 'C05_plane_coordinates', 'C05_ray_parity_is_fan_parity', 'C05_ray_parity_direction_independent', 'C05_test_point_fan_parity_partial', 'C05_test_point_is_winding_parity_partial', 'C05_test_point_is_membership_partial', 'C05_answer_independent_of_ray_partial', 'C05_pinned_test_point_counts_crossings', 'C05_pinned_test_point_is_winding_parity_if_long_enough', 'C05_pinned_length_hypothesis_fails', 'C05_pinned_ray_too_short_refuted', 'C05_on_edge_tolerance_refuted', 'C05_on_edge_parameter_refuted', 'C05_vertex_grazing_refuted',
+            # Properties/C05_vertex.v: the vertex rules (cast rays exactly through a vertex; edge_semigeneric)
+            'C05_vertex_semigeneric_weakens_generic', 'C05_vertex_side_test_is_a_sign', 'C05_vertex_rules_are_half_open', 'C05_vertex_test_point_counts_half_open_crossings', 'C05_vertex_plane_coordinates', 'C05_vertex_half_open_parity_is_fan_parity', 'C05_vertex_half_open_is_proper_on_generic_edges', 'C05_vertex_half_open_parity_is_generic_parity', 'C05_vertex_test_point_fan_parity', 'C05_vertex_test_point_is_winding_parity', 'C05_vertex_test_point_is_membership', 'C05_vertex_generic_counting_ray_exists', 'C05_vertex_sliver_crossing_dropped', 'C05_vertex_ray_through_vertex_binary64']
 
 def streams(tier):
     if tier == 'quick': return [Stream('C05', 150)]
